@@ -111,7 +111,7 @@ Fixpoint extract_loop (n:nat) (p:nat) (chunk:N) (region:list byte) (pos to_read 
 Definition extract_entries_inner (p:nat) (region:list byte) (start end_:N) : res (list entry) :=
   if (end_ <? start)%N then Panic else
   let chunk := next_multiple_of BSgen.Consts.scan_chunk (line_size p) in
-  extract_loop (S (N.to_nat ((end_ - start) / chunk))) p chunk region start (end_ - start)%N 0%N [] [].
+  extract_loop (S (N.to_nat (N.min ((end_ - start) / chunk) (len region / chunk + 1)))) p chunk region start (end_ - start)%N 0%N [] [].
 
 (* last_meta_timestamp: backwards window search; fuel = bound on the iterations *)
 Fixpoint last_meta_loop (fuel:nat) (p:nat) (region:list byte) (data_bytes window overlap start:N) : res (option N) :=
